@@ -73,5 +73,8 @@ Definition source_id_reused_iff_same_path_string : bool := true.
 Definition source_id_first : Z := 0.
 Definition source_id_fresh (max_id : Z) : Z := (max_id + 1).
 
+(* SearchCatalog.register: every new entry gets its OWN list: self._entries[path] = {'source_id': self.get_source_id(path), 'path': path, 'searches': [search]} (inside the per-path loop) *)
+Definition catalog_entry_searches_fresh_per_path : bool := true.
+
 (* ResultStoreParallel.local: a store object without a local store creates a NEW ResultStoreSimple and consults nothing outside itself (no process-wide cache) *)
 Definition worker_local_store_fresh_per_task : bool := true.
